@@ -173,7 +173,19 @@ class _ASTMatcher:
     def _check_statements(self, node):
         for field, child in ast.iter_fields(node):
             if isinstance(child, (list, tuple)):
+                if field == "orelse" and self._is_elif_clause(node, child):
+                    continue
                 self.__check_stmt_list(child)
+
+    def _is_elif_clause(self, node, orelse):
+        # ``elif`` is an ``If`` in the ``orelse`` of an ``If``: it can only be
+        # rewritten together with its chain, it is not a statement of a list
+        return (
+            isinstance(node, ast.If)
+            and len(orelse) == 1
+            and isinstance(orelse[0], ast.If)
+            and orelse[0].col_offset == node.col_offset
+        )
 
     def __check_stmt_list(self, nodes):
         for index in range(len(nodes)):
